@@ -311,6 +311,50 @@ let op_lineno_sbs = function
       ^ "\t" ^ string_of_int (int_of_n fl) ^ "," ^ string_of_int (int_of_n fr)
   | _ -> "BADARGS"
 
+(* ---- wrapping (C07) *)
+(* wrap_line <width> <max_lines> <permille> <style:cluster,width;cluster,width...|...> -> rows *)
+let op_wrap_line = function
+  | [ w; ml; pm; secs ] ->
+      let sec_of e =
+        let i = S.index e ':' in
+        let st = int_of_string (S.sub e 0 i) in
+        let body = S.sub e (i + 1) (S.length e - i - 1) in
+        let grs = if body = "" then [] else
+            L.map (fun g -> match S.split_on_char ',' g with
+                | [ id; wd ] -> (n_of_int (int_of_string id), nat_of_int (int_of_string wd))
+                | _ -> failwith "bad grapheme") (S.split_on_char ';' body) in
+        (nat_of_int st, grs) in
+      let line = if secs = "" then [] else L.map sec_of (S.split_on_char '|' secs) in
+      let c = { WrapLine.line_width = nat_of_int (int_of_string w); WrapLine.max_lines_cfg = nat_of_int (int_of_string ml);
+                WrapLine.right_permille = nat_of_int (int_of_string pm) } in
+      (match WrapLine.wrap_line (WrapFacts.wrap_fuel c line) c line with
+       | None -> "FUEL"
+       | Some rows ->
+           let seg = function
+             | WrapLine.SText (st, t) -> "T" ^ string_of_int (int_of_nat st) ^ ":" ^ S.concat ";" (L.map (fun (id, _) -> string_of_int (int_of_n id)) t)
+             | WrapLine.SSymLeft -> "L" | WrapLine.SSymRight -> "R" | WrapLine.SSymPrefix -> "P"
+             | WrapLine.SPad n -> "S" ^ string_of_int (int_of_nat n) in
+           "OK\t" ^ S.concat "|" (L.map (fun r -> S.concat "," (L.map seg r)) rows))
+  | _ -> "BADARGS"
+
+(* truncate <fill 0/1> <width> <items> <tail>; items: T<id,w;id,w> or A<id>, separated by | -> output elements *)
+let op_truncate = function
+  | [ fill; dw; items; tail ] ->
+      let item_of e =
+        let body = S.sub e 1 (S.length e - 1) in
+        if S.get e 0 = 'A' then Trunc.IAnsi (n_of_int (int_of_string body))
+        else Trunc.IText (if body = "" then [] else
+            L.map (fun g -> match S.split_on_char ',' g with
+                | [ id; wd ] -> (n_of_int (int_of_string id), nat_of_int (int_of_string wd))
+                | _ -> failwith "bad grapheme") (S.split_on_char ';' body)) in
+      let parse x = if x = "" then [] else L.map item_of (S.split_on_char '|' x) in
+      let out = Trunc.truncate_str (fill = "1") (nat_of_int (int_of_string dw)) (parse items) (parse tail) in
+      "OK\t" ^ S.concat "," (L.map (function
+          | Trunc.OG (id, _) -> "G" ^ string_of_int (int_of_n id)
+          | Trunc.OFill -> "F"
+          | Trunc.OAnsi a -> "A" ^ string_of_int (int_of_n a)) out)
+  | _ -> "BADARGS"
+
 (* blame_run n keys gitflags *)
 let op_blame_run = function
   | [ n; keys; flags ] ->
@@ -331,6 +375,8 @@ let op_blame_spec = function
   | _ -> "BADARGS"
 
 let dispatch = function
+  | "wrap_line" :: args -> op_wrap_line args
+  | "truncate" :: args -> op_truncate args
   | "lineno_unified" :: args -> op_lineno_unified args
   | "lineno_sbs" :: args -> op_lineno_sbs args
   | "opt_resolve" :: args -> op_opt_resolve args
